@@ -13,7 +13,9 @@ import (
 var keyPool = []string{"a", "b", "c", "id", "name", "k-1", "age", "A b", "", "é", "true", "x.y"}
 var symKeyPool = []string{"a", "b", "c", "id", "name", "k-1", "age"}
 
-var strPool = []string{"", "a", "b", "abc", "ABC", "12", "true", "false", "é", "a b", "0", "aaaa", "Hello mum", "x\ny", "q\"uote", "back\\slash", "日本", "abcdefghij"}
+// "False" / "FALSE" / "TRUE": the textual booleans in another case are ordinary
+// non-empty strings (truthy, not of type bool); see NOTES.md "Anchor audit"
+var strPool = []string{"", "a", "b", "abc", "ABC", "12", "true", "false", "False", "FALSE", "TRUE", "é", "a b", "0", "aaaa", "Hello mum", "x\ny", "q\"uote", "back\\slash", "日本", "abcdefghij"}
 
 var patPool = []string{"^a", "b$", "^[0-9]+$", "a|b", ".", "", "^$", "(?i)abc", "\\d{2,}", "^.{3}$", "é", "[^a]", "^(true|false)$", "^\\pL+$", "a*", "(?s)^.*$"}
 
@@ -29,7 +31,7 @@ var lenPool = []int64{0, 1, 2, 3, 4, 5, 8, -1, 10, math.MaxInt64, math.MinInt64}
 
 var funPool = []string{"(lambda (x) x)", "car", "(s:make-validator \"f\" s:int)", "s:validate", "(lambda () 1)"}
 
-var symPool = []string{"true", "false", "foo", ":kw", "nil-ish", "string"}
+var symPool = []string{"true", "false", "foo", ":kw", "nil-ish", "string", "False"}
 
 // ---------------------------------------------------------------- numbers
 
@@ -810,7 +812,7 @@ func (g *sgen) forCon(c *rs.Con, t string, depth int) (rs.Value, bool) {
 		return rs.Sym("false"), true
 	case "is-truthy":
 		return rapid.SampledFrom([]rs.Value{rs.Sym("true"), rs.Str("a"), rs.Int(1), rs.Float(0.5), rs.Vec(rs.Int(0)),
-			rs.Map(rs.Entry{Key: "a", V: rs.Int(0)}), rs.Bytes("a"), rs.Str("true")}).Draw(g.t, "truthy"), true
+			rs.Map(rs.Entry{Key: "a", V: rs.Int(0)}), rs.Bytes("a"), rs.Str("true"), rs.Str("False"), rs.Str("FALSE")}).Draw(g.t, "truthy"), true
 	case "is-falsy":
 		return rapid.SampledFrom([]rs.Value{rs.Sym("false"), rs.Str(""), rs.Str("false"), rs.Int(0), rs.Float(-0.5), rs.Vec(),
 			rs.Map(), rs.Bytes("")}).Draw(g.t, "falsy"), true
